@@ -464,7 +464,12 @@ var solverSem = make(chan bool, 16)
 
 // runSolver splits the obligations into chunks that run as parallel solver processes.
 func (e *Engine) runSolver(sv solverSpec, preamble string, obls []*Obl, timeoutMs int, mv []modelVar) {
-	const chunk = 24
+	chunk := 24
+	if timeoutMs > 6000 {
+		// large budgets (thorough tier): a chunk runs its queries one after the other, so keep the worst case of one
+		// process (every query running into the wall-clock backstop) within a few minutes
+		chunk = 6
+	}
 	if len(obls) <= chunk {
 		solverSem <- true
 		e.runSolverChunk(sv, preamble, obls, timeoutMs, mv)
